@@ -8,7 +8,7 @@ from rules.storefacts import field_of
 
 LEVEL_TEXT = (
     "Static clause check: R1 dispatch rows (0x05/0x15 -> increment, 0x06/0x16 -> decrement) and the bool that selects "
-    "the + arm resp. the saturating - arm of MemcStore::add_delta; R2 arithmetic shape (the increment must be computed by "
+    "the + resp. the saturating - computation (decided on the public increment/decrement with their shared helper inlined); R2 arithmetic shape (the increment must be computed by "
     "an operation that cannot trap: an overflow-checked + on two client-controlled u64 is a violation; decrement: "
     "delta > value -> 0, otherwise value - delta); R3 what is stored and returned (record.value <- to_string(result), "
     "DeltaResult.value <- the same result, the stored header is the fetched one with only cas taken from the request: the "
@@ -23,13 +23,19 @@ ASSUMPTIONS = [
 DEV_ONLY = ("C07.R2",)  # the overflow assert exists only in a build with overflow checks
 
 
-def delta_paths(ctx, increment):
+def delta_body(ctx, increment):
+    return ctx.facts.one(MEMC + ("::increment" if increment else "::decrement"))
+
+
+def delta_paths(ctx, increment, seeds=None):
+    """paths of the public MemcStore::increment / decrement (whatever private helper they share is inlined)"""
     key = "delta_paths:%s" % increment
+    if seeds is not None:
+        b = delta_body(ctx, increment)
+        return b, Interp(ctx.facts).run(b, [P("self"), P("header"), P("key"), P("delta")], seeds=seeds)
     if key not in ctx._cache:
-        f = ctx.facts
-        b = f.one(MEMC + "::add_delta")
-        I = Interp(f)
-        ctx._cache[key] = (b, I.run(b, [P("self"), P("header"), P("key"), P("delta"), increment]))
+        b = delta_body(ctx, increment)
+        ctx._cache[key] = (b, Interp(ctx.facts).run(b, [P("self"), P("header"), P("key"), P("delta")]))
     return ctx._cache[key]
 
 
@@ -54,7 +60,7 @@ def to_string_arg(p, ctxfrag=None):
 
 
 def r1(ctx):
-    rep = Report("C07.R1", "dispatch: 0x05/0x15 -> MemcStore::increment, 0x06/0x16 -> decrement; increment/decrement select the + / saturating - arm of add_delta", floor=10)
+    rep = Report("C07.R1", "dispatch: 0x05/0x15 -> MemcStore::increment, 0x06/0x16 -> decrement; increment adds, decrement subtracts", floor=10)
     f = ctx.facts
     rows = {0x05: ("Increment", "increment"), 0x15: ("IncrementQuiet", "increment"), 0x06: ("Decrement", "decrement"), 0x16: ("DecrementQuiet", "decrement")}
     for op, (variant, meth) in rows.items():
@@ -72,26 +78,51 @@ def r1(ctx):
                 if e.kind == "call" and e.name.startswith(MEMC + "::"):
                     called.add(e.name.split("::")[-1])
         rep.check(called == {meth}, "handler->store:%s" % meth, "BinaryHandler::%s calls MemcStore::%s" % (meth, meth), "BinaryHandler::%s calls MemcStore::%s" % (meth, sorted(called)), hb.loc())
-        sb = f.one(MEMC + "::" + meth)
-        I = Interp(f, policy=lambda body, args: "opaque" if body.name == "add_delta" else "inline")
-        flags = set()
-        for p in I.run(sb, [P("self"), P("header"), P("key"), P("delta")]):
-            for e in p.events:
-                if e.kind == "call" and e.name == MEMC + "::add_delta":
-                    flags.add(tform(e.args[4]))
-                    ok_args = tform(e.args[1]) == P("header") and tform(e.args[2]) == P("key") and tform(e.args[3]) == P("delta")
-                    rep.check(ok_args, "MemcStore::%s:forwards-args" % meth, "header/key/delta forwarded", "MemcStore::%s does not forward its header/key/delta to add_delta" % meth, sb.loc())
-        rep.check(flags == {flag}, "MemcStore::%s:direction" % meth, "add_delta(.., increment=%s)" % bool(flag), "MemcStore::%s calls add_delta with increment flag %s (must be %s)" % (meth, sorted(flags), bool(flag)), sb.loc())
+        # direction: the public method computes value (+) delta resp. value (-) delta on the existing-key path
+        sb, paths = delta_paths(ctx, flag)
+        dirs = set()
+        for p in paths:
+            oc, g = read_outcome(p)
+            v = parsed_value_atom(p)
+            a = to_string_arg(p)
+            if oc != "hit" or v is None or a is None:
+                continue
+            dd = F(P("delta"), "delta")
+            at = atoms(a)
+            if any(isinstance(x, tuple) and x[0] == "call" and (x[1].endswith("wrapping_add") or x[1].endswith("saturating_add") or x[1].endswith("checked_add")) for x in at):
+                dirs.add("+")
+            elif any(isinstance(x, tuple) and x[0] == "call" and (x[1].endswith("saturating_sub") or x[1].endswith("wrapping_sub") or x[1].endswith("checked_sub")) for x in at):
+                dirs.add("-")
+            else:
+                t = tform(a)
+                if isinstance(t, tuple) and t and t[0] == "lin":
+                    co = dict(t[1])
+                    if co.get(dd) == 1 and co.get(v) == 1:
+                        dirs.add("+")
+                    elif co.get(dd) == -1 and co.get(v) == 1:
+                        dirs.add("-")
+                    else:
+                        dirs.add("?")
+                elif a == 0:
+                    dirs.add("-")  # the clamp arm of a decrement
+                else:
+                    dirs.add("?")
+        want = {"+"} if flag else {"-"}
+        rep.check(dirs == want, "MemcStore::%s:direction" % meth, "existing-key result = value %s delta" % ("+" if flag else "-"), "MemcStore::%s computes its result in direction %s of the stored value and the delta (must be %s)" % (meth, sorted(dirs), sorted(want)[0]), sb.loc())
     return rep
 
 
 def r2(ctx):
     rep = Report("C07.R2", "arithmetic shape: increment cannot trap (wrapping, not an overflow-checked +); decrement stores 0 when delta > value, else value - delta", floor=3)
     f = ctx.facts
-    b0 = f.one(MEMC + "::add_delta")
-    # (a) no overflow-asserted Add on non-constant operands anywhere under add_delta
+    import callgraph
+
+    cg = callgraph.get(ctx)
+    b0 = f.one(MEMC + "::increment")
+    under = sorted(x for x in cg.reachable([MEMC + "::increment"]) if x.startswith(MEMC + "::") and x in f.bodies)
+    # (a) no overflow-asserted Add on non-constant operands anywhere under the command (its helpers and closures)
     n_add = 0
-    for b in [b0] + f.closures_of(b0.path):
+    for b in [f.bodies[x] for x in under]:
         rep.analysed(b)
         for bi, blk in enumerate(b.blocks):
             t = blk.term
@@ -104,7 +135,7 @@ def r2(ctx):
     for p in paths:
         oc, g = read_outcome(p)
         v = parsed_value_atom(p)
-        a = to_string_arg(p, "add_delta::{closure")
+        a = to_string_arg(p)
         if oc != "hit" or v is None or a is None:
             continue
         seen_inc = True
@@ -115,14 +146,14 @@ def r2(ctx):
         if n_add == 0:
             rep.check(ok, "increment:wrapping-sum", "increment result = wrapping_add(value, delta)", "increment result is %s: not a wrapping sum of the parsed value and the delta" % short(a, 140), b.loc())
     if not seen_inc:
-        rep.bad("increment:no-path", "cannot find the increment path of add_delta", b0.loc())
+        rep.bad("increment:no-path", "cannot find the existing-key path of MemcStore::increment", b0.loc())
     # (c) decrement arm
     b, paths = delta_paths(ctx, 0)
     cases = {}
     for p in paths:
         oc, g = read_outcome(p)
         v = parsed_value_atom(p)
-        a = to_string_arg(p, "add_delta::{closure")
+        a = to_string_arg(p)
         if oc != "hit" or v is None or a is None:
             continue
         dd = F(P("delta"), "delta")
@@ -175,7 +206,7 @@ def r3(ctx):
             if oc != "hit" or len(sets) != 1 or variant_of(p.ret)[0] != "Ok":
                 continue
             n += 1
-            a = to_string_arg(p, "add_delta::{closure")
+            a = to_string_arg(p)
             rec = sets[0].args[2]
             fetched = ("field", ("as", g.result, "Ok"), "0")
             val = field_of(rec, "value")
@@ -193,7 +224,7 @@ def r3(ctx):
             rep.check(isinstance(rec, Struct) and rec.base == fetched, "%s:record-is-fetched" % nm, "the fetched record is updated and stored", "incr/decr stores %s instead of the fetched record" % short(rec, 100), b.loc())
             break
         if n == 0:
-            rep.bad("%s:no-success-path" % nm, "cannot find the existing-key success path of add_delta", b.loc())
+            rep.bad("%s:no-success-path" % nm, "cannot find the existing-key success path of the counter command", b.loc())
     # handler: response value <- delta_result.value
     for meth, argn in (("increment", "inc_request"), ("decrement", "dec_request")):
         hb = f.one(HANDLER + "::" + meth)
@@ -217,7 +248,7 @@ def r4(ctx):
     ttl = F(P("header"), "time_to_live")
     for inc in (1, 0):
         nm = "incr" if inc else "decr"
-        b = f.one(MEMC + "::add_delta")
+        b = delta_body(ctx, inc)
         for case in ("exp=0xffffffff", "exp!=0xffffffff"):
             def seeds(st, case=case):
                 if case == "exp=0xffffffff":
@@ -225,8 +256,7 @@ def r4(ctx):
                 else:
                     assume(st, {ttl: 1}, lo=0, hi=0xFFFFFFFE)
 
-            I = Interp(f)
-            paths = I.run(b, [P("self"), P("header"), P("key"), P("delta"), inc], seeds=seeds)
+            _b, paths = delta_paths(ctx, inc, seeds=seeds)
             rep.evaluations += len(paths)
             found = False
             for p in paths:
